@@ -2,6 +2,7 @@ package main
 
 import (
 	"bytes"
+	"encoding/json"
 	"fmt"
 	"os"
 	"path/filepath"
@@ -97,6 +98,52 @@ func runC12(ctx *Ctx) *Report {
 		}
 	}
 	docs = append(docs, longBad...)
+	// valid documents in which some node (the root, a child, a grandchild) has many distinct children: exactly 16,
+	// 17, 31, 32, 33, 64, 65 and widths drawn from 32…70; with and without rows below the children, with a name
+	// given twice (the second row finds the first one's node). They go through every entry point in both modes.
+	var wideDocs [][]byte
+	{
+		widths := []int{15, 16, 17, 31, 32, 33, 34, 63, 64, 65, 70}
+		for i := 0; i < 6; i++ {
+			widths = append(widths, 32+ctx.Rng.Intn(39))
+		}
+		if ctx.Thorough {
+			for w := 1; w <= 140; w++ {
+				widths = append(widths, w)
+			}
+		}
+		for wi, w := range widths {
+			var sb strings.Builder
+			depth := (wi + ctx.Rng.Intn(3)) % 3 // where the wide parent is: the root, a child of it, a grandchild
+			switch depth {
+			case 0:
+				sb.WriteString("- wide\n")
+			case 1:
+				sb.WriteString("- r\n  - before\n  - wide\n")
+			case 2:
+				sb.WriteString("- r\n  - a\n    - wide\n")
+			}
+			ind := strings.Repeat("  ", depth+1)
+			below := ctx.Rng.Intn(2) == 0
+			for j := 0; j < w; j++ {
+				sb.WriteString(ind + "- k" + itoa(j) + "\n")
+				if below && j%5 == 0 {
+					sb.WriteString(ind + "  - under.go\n")
+				}
+			}
+			if ctx.Rng.Intn(2) == 0 {
+				// a name that exists already (an early, a late one), with a row below it
+				for _, again := range []int{0, w / 2, w - 1} {
+					sb.WriteString(ind + "- k" + itoa(again) + "\n" + ind + "  - again\n")
+				}
+			}
+			if depth > 0 {
+				sb.WriteString("  - after\n")
+			}
+			sb.WriteString("- second\n  - x\n")
+			wideDocs = append(wideDocs, []byte(sb.String()))
+		}
+	}
 	kinds := []string{"iter-text", "batch-text", "iter-dry", "json", "yaml", "walk", "verify"}
 	type job struct {
 		doc  []byte
@@ -116,6 +163,11 @@ func runC12(ctx *Ctx) *Report {
 			}
 		} else {
 			jobs = append(jobs, job{d, kinds[i%len(kinds)]})
+		}
+	}
+	for _, d := range wideDocs {
+		for _, k := range kinds {
+			jobs = append(jobs, job{d, k})
 		}
 	}
 	parallel(jobs, ctx.Workers, func(m *Model, j job) {
@@ -172,6 +224,11 @@ func runC12(ctx *Ctx) *Report {
 			mk = append(mk, c)
 		}
 	}
+	for wi, d := range wideDocs {
+		c := newCase("mkdir")
+		c.Doc, c.DocText, c.Target, c.Dry, c.Pre, c.Exts = hx(d), "<a wide parent>", "t", wi%2 == 0, []FSEntry{{"t", "d"}}, []string{".go"}
+		mk = append(mk, c)
+	}
 	parallel(mk, ctx.Workers, func(m *Model, c Case) {
 		var diffs []Diff
 		var realv string
@@ -185,6 +242,7 @@ func runC12(ctx *Ctx) *Report {
 		rep.Record(c, caseKey(c), len(c.Doc) >= 4, diffs)
 		rep.Count("entry:mkdir" + ifs(c.Dry, "-dry", "") + "/" + resultClass(realv))
 	})
+	writerFaults(ctx, rep)
 	// massive-mode entry points in an isolated worker process: a panic in a library goroutine kills the
 	// worker, which is reported with the input that did it
 	var mjobs []c12job
@@ -206,6 +264,11 @@ func runC12(ctx *Ctx) *Report {
 	}
 	for i, d := range longBad {
 		mjobs = append(mjobs, c12job{[]string{"text", "json", "walk", "dry"}[i%4], hx(d)})
+	}
+	for _, d := range wideDocs {
+		for _, e := range []string{"text", "json", "yaml", "dry", "walk", "verify", "mkdir"} {
+			mjobs = append(mjobs, c12job{e, hx(d)})
+		}
 	}
 	for nbad := 3; nbad <= 12; nbad += 3 {
 		var sb strings.Builder
@@ -244,7 +307,7 @@ func runC12(ctx *Ctx) *Report {
 				}
 				c := map[string]string{"kind": "c12-massive", "entry": j.Entry, "doc_hex": j.Doc, "doc_text": docText(unhx(j.Doc))}
 				rep.Record(c, "m:"+j.Entry+":"+j.Doc, len(j.Doc) >= 4, diffs)
-				rep.Count("massive-entry:" + j.Entry + "/" + strings.Fields(ans + " ?")[1])
+				rep.Count("massive-entry:" + j.Entry + "/" + strings.Fields(ans + " crashed ?")[1])
 			}
 		}()
 	}
@@ -267,4 +330,202 @@ func isBlankDoc(d []byte) bool {
 		}
 	}
 	return true
+}
+
+// ---------------------------------------------------------------- writers that fail (C12: the call returns, with an error)
+
+// limitWriter accepts `limit` bytes in all and fails from then on (a full disk, a closed pipe).
+type limitWriter struct {
+	limit  int
+	n      int
+	failed bool
+}
+
+func (w *limitWriter) Write(p []byte) (int, error) {
+	if w.failed || w.n+len(p) > w.limit {
+		k := w.limit - w.n
+		if k < 0 || w.failed {
+			k = 0
+		}
+		w.n += k
+		w.failed = true
+		return k, errWriter
+	}
+	w.n += len(p)
+	return len(p), nil
+}
+
+type wfCase struct {
+	Kind      string `json:"kind"`
+	Doc       string `json:"doc_hex,omitempty"`
+	Label     string `json:"document"`
+	Malformed bool   `json:"malformed,omitempty"`
+	Mode      string `json:"mode"`
+	FailAt    int    `json:"writer_fails_at_call"`     // -1: see Limit
+	Limit     int    `json:"writer_fails_after_bytes"` // -1: see FailAt
+	Short     int    `json:"short,omitempty"`
+}
+
+func init() {
+	replayers["writer-fault"] = func(m *Model, raw json.RawMessage) []Diff {
+		var c wfCase
+		json.Unmarshal(raw, &c)
+		return runWriterFault(c)
+	}
+}
+
+// runWriterFault: whatever the size of the printed tree and wherever the writer starts failing, every
+// simple-mode output path returns – with an error when the writer failed or the document is malformed.
+func runWriterFault(c wfCase) []Diff {
+	doc := unhx(c.Doc)
+	var opts []gtree.Option
+	fromRoot := false
+	switch c.Mode {
+	case "iter-text":
+	case "iter-text-fmt":
+		opts = fmtOpts(fmtCustom)
+	case "batch-text":
+		opts = []gtree.Option{gtree.WithNoUseIterOfSimpleOutput()}
+	case "json", "yaml", "toml":
+		opts = []gtree.Option{encodeOpt(c.Mode)}
+	case "json-batch":
+		opts = []gtree.Option{gtree.WithEncodeJSON(), gtree.WithNoUseIterOfSimpleOutput()}
+	case "dry":
+		opts = []gtree.Option{gtree.WithDryRun(), gtree.WithFileExtensions([]string{".go"})}
+	case "dry-batch":
+		opts = []gtree.Option{gtree.WithDryRun(), gtree.WithNoUseIterOfSimpleOutput()}
+	case "root-text", "root-json", "root-dry":
+		fromRoot = true
+		opts = map[string][]gtree.Option{"root-text": nil, "root-json": {gtree.WithEncodeJSON()}, "root-dry": {gtree.WithDryRun()}}[c.Mode]
+	}
+	var w interface {
+		Write([]byte) (int, error)
+	}
+	failed := func() bool { return false }
+	if c.Limit >= 0 {
+		lw := &limitWriter{limit: c.Limit}
+		w, failed = lw, func() bool { return lw.failed }
+	} else {
+		fw := &faultWriter{failAt: c.FailAt, short: c.Short}
+		w, failed = fw, func() bool { return fw.failed }
+	}
+	var err error
+	p := guard(func() string {
+		if fromRoot {
+			// the first root of the document, built with NewRoot/Add
+			var t *Tree
+			if f := docForest(doc); len(f) > 0 {
+				t = f[0]
+			} else {
+				t = &Tree{Name: "r"}
+			}
+			err = gtree.OutputFromRoot(w, buildRoot(t), opts...)
+		} else if c.FailAt%2 == 1 {
+			err = gtree.Output(w, bytes.NewReader(doc), opts...)
+		} else {
+			err = gtree.OutputFromMarkdown(w, bytes.NewReader(doc), opts...)
+		}
+		return ""
+	})
+	if p != "" {
+		return []Diff{{What: "panic with a failing writer (" + c.Mode + ", " + c.Label + ")", Real: p, Model: "the call returns the writer's error"}}
+	}
+	var d []Diff
+	if failed() && err == nil {
+		d = append(d, Diff{What: "the writer failed and the call returned nil (" + c.Mode + ", " + c.Label + ")", Real: "nil", Model: "an error"})
+	}
+	if c.Malformed && !fromRoot && err == nil {
+		d = append(d, Diff{What: "a malformed document was accepted (" + c.Mode + ", " + c.Label + ")", Real: "nil", Model: "an error"})
+	}
+	return d
+}
+
+// docForest reads a two-space, hyphen-bullet document (as spelled by plainSpelling) back into a forest (harness helper).
+func docForest(doc []byte) []*Tree {
+	var roots []*Tree
+	var stack []*Tree
+	for _, l := range strings.Split(strings.TrimSuffix(string(doc), "\n"), "\n") {
+		t := strings.TrimLeft(l, " ")
+		depth := (len(l) - len(t)) / 2
+		if !strings.HasPrefix(t, "- ") || depth > len(stack) {
+			break
+		}
+		n := &Tree{Name: strings.TrimPrefix(t, "- ")}
+		if depth == 0 {
+			roots = append(roots, n)
+		} else {
+			stack[depth-1].Kids = append(stack[depth-1].Kids, n)
+		}
+		stack = append(stack[:depth], n)
+	}
+	return roots
+}
+
+func writerFaults(ctx *Ctx, rep *Report) {
+	type wdoc struct {
+		label     string
+		doc       []byte
+		malformed bool
+	}
+	var wdocs []wdoc
+	mkWide := func(n, nameLen int) []*Tree {
+		t := &Tree{Name: "big"}
+		for j := 0; j < n; j++ {
+			t.Kids = append(t.Kids, &Tree{Name: "child-" + itoa(j) + "-" + strings.Repeat("x", nameLen), Kids: []*Tree{{Name: "leaf.go"}}})
+		}
+		return []*Tree{t}
+	}
+	small := []*Tree{{Name: "a", Kids: []*Tree{{Name: "b"}, {Name: "c.go"}}}, {Name: "d"}}
+	var roots30 []*Tree
+	for i := 0; i < 30; i++ {
+		roots30 = append(roots30, &Tree{Name: "r" + itoa(i), Kids: []*Tree{{Name: "x", Kids: []*Tree{{Name: "y.go"}}}, {Name: "z"}}})
+	}
+	wdocs = append(wdocs,
+		wdoc{"a small tree", spell(small, plainSpelling), false},
+		wdoc{"one root, printed tree of about 6 KiB", spell(mkWide(60, 20), plainSpelling), false},
+		wdoc{"one root, printed tree of about 5 KiB, " + itoa(33+ctx.Rng.Intn(40)) + " children", spell(mkWide(33+ctx.Rng.Intn(40), 30), plainSpelling), false},
+		wdoc{"one root, printed tree of more than 64 KiB", spell(mkWide(900, 30), plainSpelling), false},
+		wdoc{"30 roots", spell(roots30, plainSpelling), false},
+		wdoc{"1500 roots, more than 64 KiB", spell(bigShapes()["huge"], plainSpelling), false},
+	)
+	for _, bad := range []string{"      - too deep\n", "  x\n", "  -\n", "\t- other indent\n"} {
+		wdocs = append(wdocs,
+			wdoc{"two roots, then a malformed row", []byte("- a\n  - b\n- c\n  - d\n- e\n" + bad + "- after\n"), true},
+			wdoc{"30 roots, then a malformed row", append(spell(roots30, plainSpelling), []byte("- bad\n"+bad)...), true},
+			wdoc{"a root of about 6 KiB, a small root, then a malformed row", append(spell(append(mkWide(60, 20), small...), plainSpelling), []byte("- bad\n"+bad)...), true},
+		)
+	}
+	modes := []string{"iter-text", "iter-text-fmt", "batch-text", "json", "yaml", "toml", "json-batch", "dry", "dry-batch", "root-text", "root-json", "root-dry"}
+	var cs []wfCase
+	for di, wd := range wdocs {
+		for mi, mode := range modes {
+			if strings.HasPrefix(mode, "root-") && wd.malformed {
+				continue
+			}
+			calls := []int{0, 1, 2, 3, 7, 40, 100 + ctx.Rng.Intn(100), 1000 + ctx.Rng.Intn(1000)}
+			limits := []int{0, 1, 7, 100, 4095, 4096, 4097, 8192 + ctx.Rng.Intn(100), 10000, 65535, 65536, 65537, 70000 + ctx.Rng.Intn(5000)}
+			for ci, k := range calls {
+				if !ctx.Thorough && len(wd.doc) > 100000 && ci%2 == 1 {
+					continue
+				}
+				cs = append(cs, wfCase{Kind: "writer-fault", Doc: hx(wd.doc), Label: wd.label, Malformed: wd.malformed, Mode: mode, FailAt: k, Limit: -1, Short: []int{0, 0, 1, 5}[(di+mi+ci)%4]})
+			}
+			for li, n := range limits {
+				if !ctx.Thorough && len(wd.doc) > 100000 && li%2 == 1 {
+					continue
+				}
+				cs = append(cs, wfCase{Kind: "writer-fault", Doc: hx(wd.doc), Label: wd.label, Malformed: wd.malformed, Mode: mode, FailAt: -1, Limit: n})
+			}
+		}
+	}
+	parallel(cs, ctx.Workers, func(m *Model, c wfCase) {
+		diffs := runWriterFault(c)
+		key := c.Label + "/" + c.Mode + "/" + itoa(c.FailAt) + "/" + itoa(c.Limit) + "/" + itoa(c.Short)
+		rc := c
+		if len(diffs) == 0 && len(rc.Doc) > 4000 {
+			rc.Doc = "" // a replay file carries the document; the samples of the evidence only its description
+		}
+		rep.Record(rc, key, true, diffs)
+		rep.Count("writer-fault:" + c.Mode)
+	})
 }
